@@ -6,20 +6,23 @@ rendering that error as a diagnostic also succeeds; neither step panics; the ans
 every time.
 
 Proved here (for every text, with any mix of line endings and any characters):
-* `position_tracks_index_and_line` — the cursor the lexer keeps (`Position::advance`) is the
-  code-point index and the number of `\n` consumed;
+* `position_tracks_index_and_line`, `posAt_succ` — the cursor the lexer keeps (`Position::advance`)
+  is the code-point index and the number of `\n` consumed;
 * `snippet_range_in_source` — for every span of the text (start/end = cursor positions at char
-  indices `i ≤ j ≤ |text|`, which is what lexer, parser and generator report — see
-  `tokenize_spans_in_text` for the lexer), the repaired `create_snippet` does not underflow, hands
-  the renderer a source that is a contiguous slice of the text (plus at most one final `\n`) and an
-  annotation range that is non-empty, lies inside that source (the renderer's own bound check,
-  `rangeAccepted`) and covers exactly the characters `i .. j` of the text;
+  indices `i ≤ j ≤ |text|`, which is what lexer, parser and generator report), the repaired
+  `create_snippet` does not underflow, hands the renderer a source that is a contiguous slice of
+  the text (plus at most one final `\n`) and an annotation range that is non-empty, lies inside
+  that source (the renderer's own bound check, `rangeAccepted`) and covers exactly the characters
+  `i .. j` of the text;
 * `old_snippet_refuted` — the arithmetic of the unrepaired tree fails that bound on a CRLF text
-  (the witness of DESIGN §5: the real panic);
-* `tokenize_spans_in_text` / `tokenize_never_hangs` — see below.
-Not proved (explored on the implementation by the oracle on every run): absence of panics inside
-the parser/generator/bech32/decimal code and inside annotate-snippets beyond its range check;
-determinism is a property of the Lean functions by construction and is tested on the real code by
+  (the witness of DESIGN §5: the real panic), the repaired one passes it.
+Not proved (explored on the implementation by the oracle on every run, and — for lexer and parser —
+by the correspondence with the executable models of `tokenize` and `Parser::parse_manifest`, which
+predict every token, error kind and span): that every span reported by lexer/parser/generator is
+such a span of the text (`spans_in_bounds`; oracle keys `span-out-of-bounds:*`,
+`span-inconsistent:lex`), that the model loops never reach their `hang` outcome, absence of panics
+inside the generator/bech32/decimal code and inside annotate-snippets beyond its range check.
+Determinism is a property of the Lean functions by construction and is tested on the real code by
 evaluating everything twice.
 -/
 import RadixModel.Model.Manifest
